@@ -317,6 +317,7 @@ class Watchdog(threading.Thread):
         self._last = None
         self._since = time.monotonic()
         self._procs_last = None
+        self._ll = None             # livelock window: (start time, event seq, line events, cpu ticks of the others, next sample)
         while not self.stop_flag:
             time.sleep(0.1)
             try:
@@ -335,6 +336,8 @@ class Watchdog(threading.Thread):
         """One sample; returns True when the run was finished (quiescent state found)."""
         cur = (self.sh.seq.value, self.sh.progress.value, self.sh.sleeping.value, _frames_signature())
         now = time.monotonic()
+        if self._livelock_tick(cur, now, sid, me):
+            return True
         if cur != self._last or cur[2] != 0:
             self._last = cur
             self._since = now
@@ -362,6 +365,43 @@ class Watchdog(threading.Thread):
                 wit["pool_state_error"] = repr(e)
         self.state["finish"]("deadlock", wit)
         return True
+
+
+def _watchdog_livelock_tick(self, cur, now, sid, me):
+    """Bounded progress instead of an unbounded 'eventually': for LIVELOCK_S seconds no event was logged, nobody was in an
+    injected or data delay, no other process of the session used any cpu, and this process executed only a trickle of
+    statements (a retry loop around a timeout) - nothing can change any more, the run is declared stuck."""
+    seq, progress, sleeping = cur[0], cur[1], cur[2]
+    if sleeping != 0 or self._ll is None or seq != self._ll[1]:
+        self._ll = (now, seq, progress, None, now)
+        return False
+    start, _, p0, ticks0, nxt = self._ll
+    if now < nxt:
+        return False
+    procs = _session_procs(sid, me)
+    ticks = sorted((p, t) for p, st, t in procs)
+    if any(st in ("R", "D") for _, st, _ in procs) or (ticks0 is not None and ticks != ticks0) or \
+            progress - p0 > 150 * max(1.0, now - start):
+        self._ll = (now, seq, progress, ticks, now + 1.0)
+        return False
+    self._ll = (start, seq, p0, ticks, now + 1.0)
+    if now - start < self.livelock_s:
+        return False
+    pool = self.state.get("pool")
+    wit = {"phase": self.state.get("phase"), "call": self.state.get("call"), "stacks": _stack_dump(),
+           "processes": [(p, s) for p, s, _ in procs], "quiet_s": round(now - start, 2), "livelock": True,
+           "statements_in_window": int(progress - p0)}
+    if pool is not None:
+        try:
+            wit["pool_state"] = _consumer_state(pool, self.state.get("driver_ident", self.main_ident))
+        except Exception as e:
+            wit["pool_state_error"] = repr(e)
+    self.state["finish"]("deadlock", wit)
+    return True
+
+
+Watchdog._livelock_tick = _watchdog_livelock_tick
+Watchdog.livelock_s = 12.0
 
 
 def run_case_here(case, outpath, scratch):
@@ -438,6 +478,7 @@ def run_case_here(case, outpath, scratch):
     if case.get("instr_hooks"):
         instr.enable_instruction_hooks(set(case["instr_hooks"]))
     wd = Watchdog(sh, QUIET_S[tier], outpath, state)
+    wd.livelock_s = (12.0 if tier == "quick" else 20.0) * case.get("limit_factor", 1)
     wd.start()
 
     def drive():
@@ -900,7 +941,7 @@ def deadlock_finding(case, result):
             mech = "deadlock-other"
     died = result.get("thread_exceptions") or []
     summary = (f"{'a thread of the pool died (' + died[0][:160] + '); ' if died else ''}"
-               f"quiescent state ({w.get('quiet_s')}s, all processes blocked) in phase {phase}"
+               f"{'no progress for ' + str(w.get('quiet_s')) + ' s (nothing logged, no other process used cpu, this process only repeats a timeout loop: ' + str(w.get('statements_in_window')) + ' statements)' if w.get('livelock') else 'quiescent state (' + str(w.get('quiet_s')) + 's, all processes blocked)'} in phase {phase}"
                f"{'' if w.get('call') is None else ' of call ' + str(w.get('call'))}: consumer at "
                f"{(ps.get('consumer_stack') or ['?'])[0]}, sending_work={ps.get('sending_work')}, finished="
                f"{ps.get('finished_cnt')}/{ps.get('data_cnt')}, results_q={ps.get('results_qsize')}, work_q="
